@@ -12,7 +12,7 @@ def var_base(d):
     """Name of the local/param a `x->mtime()` / `x.mtime` expression is rooted in."""
     for x in walk(d):
         if x.get('k') == 'var':
-            return x['n'].split('#')[0]
+            return x['n'].split('#')[0].split('@')[0]
     return None
 
 
@@ -39,6 +39,9 @@ def ts_role(f, d):
             return 'IN'
         os_ = origins(f, d)
         so = ' '.join(dstr(o) for o in os_)
+        if 'Edge::outputs_' not in so and 'Edge::inputs_' not in so:
+            from rules import deep_resolve
+            so = dstr(deep_resolve(f, deep_resolve(f, d)))
         if 'Edge::outputs_' in so:
             return 'OUT'
         if 'Edge::inputs_' in so:
@@ -220,8 +223,10 @@ def check_refresh_validations(ctx, rid, prog):
             ctx.violation(rid, f.name, 'refresh:validations-not-collected', f.where(e),
                           'the re-scan in RefreshDyndepDependents does not collect validation nodes')
             continue
+        from rules import loops_over
         hdrs = [bid for bid, b in f.blocks.items() if b.get('term') and b['term']['kind'] in ('for', 'range', 'while') and
                 any(x.get('k') == 'var' and x['n'] == vn for x in walk(b['term'].get('cond')))]
+        hdrs += [l['header'] for l in loops_over(f, lambda d: d.get('k') == 'var' and d.get('n') == vn)]
         adds = [x for x in f.events('call') if x.get('name') in ('Plan::AddTarget', 'Plan::AddSubTarget')]
         # success successor of the re-scan
         starts = [s2 for bid, b in f.blocks.items() for i, s2 in enumerate(b['succ']) if s2 is not None and
